@@ -57,6 +57,8 @@ PARSERS = ("parse_predicate_formula", "parse_predicate_formula_json")
 def check(run, repo, tier):
   w = World(repo)
   rewriters = _rewriters(w)
+  if rewriters is None:
+    return          # the rewriters could not be identified (reported as an analysis error)
   r1_wiring(run, w, rewriters)
   r2_paired_fields(run, w, rewriters)
   r3_collectors(run, w, rewriters)
